@@ -213,7 +213,21 @@ def check(ctx):
            "every schema field not given as keyword receives field.__setdefault__(self)" if p is None else
            "a field can be skipped without being given as keyword: %s" % " -> ".join("%s@%s" % (x.kind, x.lineno) for x in p),
            node=fields_loop)
-    # keywords first would be overwritten by defaults if the skip guard vanished: covered by the cut above
+    # keywords are applied first: a default stored afterwards for the same key would overwrite the keyword's value and mark it as
+    # default again -- every __setdefault__ in the fields loop runs only for keys that were not given (or defaults come first)
+    from engine.flow import guard_atoms
+    defaults_first = g.path(data_loop, lambda n: n is fields_loop, may_raise=lambda n: False) is None
+    for n in g.nodes:
+        if not is_setdefault_call(n) or n not in g.reachable([b], may_raise=lambda x: False, stop=lambda x: x is fields_loop):
+            continue
+        skipped = defaults_first
+        for e, truth, _t in guard_atoms(an, init, n):
+            if isinstance(e, ast.Compare) and len(e.ops) == 1 and is_kw(e.comparators[0], _t) and \
+                    ((isinstance(e.ops[0], ast.In) and truth is False) or (isinstance(e.ops[0], ast.NotIn) and truth is True)):
+                skipped = True
+        ctx.ob("ctor.defaults-skip-given", init, n.ast, skipped,
+               "the default is stored only for a key that was not given as keyword" if skipped else
+               "the default is stored although the key was given as keyword: the keyword's value is overwritten and reported as default", node=n)
 
     # ---------------------------------------------------------------- (e) __setdefault__ implementations
     sdv = model.method("Config", "_set_default_value")
